@@ -281,7 +281,8 @@ class SuperProxy(Sym):
 class Loop:
     """Loop contract: invariant(cx, env[, i]) -> z3 Bool; optional decreases(cx, env) -> z3 Int term."""
 
-    def __init__(self, invariant, decreases=None, havoc=None, label=None, extra_modifies=(), on_havoc=None, match=None, on_body=None):
+    def __init__(self, invariant, decreases=None, havoc=None, label=None, extra_modifies=(), on_havoc=None, match=None, on_body=None, on_exit=None):
+        self.on_exit = on_exit  # callback(cx, env, how): the loop is left by `break` (how='break') or by its guard (how='guard'); may emit obligations
         self.on_body = on_body  # callback(cx, env, i): intermediate lemmas at the start of the loop body (cx.lemma)
         self.match = match  # substring of the loop header (`for x in y` / `while cond`) this contract belongs to
         self.on_havoc = on_havoc  # callback(cx, env): havoc ghost state the loop body may change
@@ -657,7 +658,9 @@ class Interp:
     def st_Assert(self, s, env):
         c = self.cond(s.test, env)
         if not self.ctx.branch(c):
-            raise PyRaise('AssertionError', note='line %d: %s' % (s.lineno, ast.unparse(s.test)[:80]))
+            e = PyRaise('AssertionError', note='line %d: %s' % (s.lineno, ast.unparse(s.test)[:80]))
+            e.env = env  # the local variables at the raise (contracts may state the exceptional postcondition over them)
+            raise e
 
     def st_Raise(self, s, env):
         if s.exc is None:
@@ -668,7 +671,9 @@ class Interp:
         if isinstance(v, ExcClass):
             v = self.make_exc(self.ctx, v, (), {})
         if isinstance(v, ExcInstance):
-            raise PyRaise(v.cls, payload=v, note='line %d' % s.lineno)
+            e = PyRaise(v.cls, payload=v, note='line %d' % s.lineno)
+            e.env = env  # the local variables at the raise (contracts may state the exceptional postcondition over them)
+            raise e
         if isinstance(v, Sym) and hasattr(v, 'as_exception'):
             raise v.as_exception(self.ctx)
         raise Unsupported('raise of %r' % (v,))
@@ -754,6 +759,8 @@ class Interp:
             m = getattr(lc, 'match', None)
             if not m:
                 return False
+            if callable(m):  # match(node, header) -> bool: for loops whose headers coincide (`while True`)
+                return bool(m(node, header))
             return any(x in header for x in ((m,) if isinstance(m, str) else m))
         matched = [lc for lc in self.loops.values() if _m(lc)]
         if matched:
@@ -812,6 +819,8 @@ class Interp:
             try:
                 self.block(s.body, env)
             except _Break:
+                if lc.on_exit:
+                    lc.on_exit(ctx, env, 'break')
                 return
             except _Continue:
                 pass
@@ -820,6 +829,8 @@ class Interp:
                 m1 = lc.decreases(ctx, env)
                 ctx.oblige('%s:decreases' % label, z3.And(m0 >= 0, m1 < m0), info={'line': s.lineno})
             raise LoopCut()
+        if lc.on_exit:
+            lc.on_exit(ctx, env, 'guard')
         self.block(s.orelse, env)
 
     def st_For(self, s, env):
@@ -869,11 +880,15 @@ class Interp:
             try:
                 self.block(s.body, env)
             except _Break:
+                if lc.on_exit:
+                    lc.on_exit(ctx, env, 'break')
                 return
             except _Continue:
                 pass
             ctx.oblige('%s:preserve' % label, lc.invariant(ctx, env, i + 1), info={'line': s.lineno})
             raise LoopCut()
+        if lc.on_exit:
+            lc.on_exit(ctx, env, 'guard')
         self.block(s.orelse, env)
 
     # ------------------------------------------------------------ expressions
@@ -1084,6 +1099,11 @@ class Interp:
 
     def ex_Yield(self, n, env):
         v = self.expr(n.value, env) if n.value is not None else None
+        hook = getattr(self.ctx, 'yield_hook', None)
+        if hook is not None:
+            # per-context hook: the contract states what must hold of every yielded value (also inside an
+            # invariant-cut loop, where the list of yields is never seen by `ensures`)
+            hook(self.ctx, v, env, n)
         env.lookup('__yields__').append(v)
         return None
 
